@@ -44,6 +44,9 @@ XS = '{http://www.w3.org/2001/XMLSchema}'
 # white space characters that XML normalises unless escaped
 STR_CATALOGUE = ['', ' lead', 'trail ', ' in  ner ', '&<>"\'', 'a\U0001F600b', 'e\u0301\u0323', 'tab\there', 'nl\nhere',
                  'cr\rhere', ']]>', '\u00a0nbsp\u2028']
+# string items of a list at the border of the item value space: no XML white space (#x20 #x9 #xA #xD), but white space
+# in the sense of str.split() / str.isspace(); each is ONE item of an xsd:list
+LIST_ITEM_CATALOGUE = ['ac\u00a0hi', 'em\u2003sp', 'nel\u0085x', 'ls\u2028x', '\u3000lead', 'a.b-c_d:e']
 # pairs of distinct values of the lexical spaces that string members have in the bundled schemas
 STR_PAIRS = [('v1', 'v2'), ('en', 'de-DE'), ('urn:v:1', 'urn:v:2'),
              ('2024-05-06T07:08:09Z', '2025-01-02T03:04:05+01:00'), ('2024-05-06', '2025-01-02')]
@@ -619,6 +622,10 @@ class Builder:
         if k in ('attrlist', 'wordlist', 'qnamelist', 'textlist'):
             if vc == 'empty':
                 return []
+            if vc == 'bound':
+                first = LIST_ITEM_CATALOGUE[variant % len(LIST_ITEM_CATALOGUE)] if pi.stype == 'str' \
+                    else self.scalar(pi, 'bound', variant)
+                return [first, self.scalar(pi, 'b')]
             items = [self.scalar(pi, 'a')]
             if vc == 'many':
                 items.append(self.scalar(pi, 'b'))
